@@ -219,12 +219,16 @@ func (s *State) heapSet(key, sort, term string) {
 func (s *State) havocAll(reason string) {
 	s.c.eng.epochCtr++
 	s.epoch = s.c.eng.epochCtr
+	immKeep := s.c.eng.immutableKey
+	if s.c.eng.immAllowed[s.c.fn] {
+		immKeep = func(string) bool { return false }
+	}
 	for k := range s.heap {
-		if !s.c.eng.immutableKey(k) {
+		if !immKeep(k) {
 			delete(s.heap, k)
 		}
 	}
-	s.havocs = append(append([]havocRec(nil), s.havocs...), havocRec{"", s.epoch, s.c.eng.immutableKey})
+	s.havocs = append(append([]havocRec(nil), s.havocs...), havocRec{"", s.epoch, immKeep})
 	na := s.c.freshConst("alloc", sInt)
 	s.assume(app("<=", s.alloc, na))
 	s.alloc = na
@@ -249,7 +253,7 @@ func (s *State) rootEpoch(key string) int {
 func (s *State) havocCall(reason string, pkgs []*types.Package, funcArg bool) {
 	eng := s.c.eng
 	keep := func(key string) bool {
-		if eng.immutableKey(key) {
+		if eng.immutableKey(key) && !eng.immAllowed[s.c.fn] {
 			return true
 		}
 		if funcArg {
